@@ -294,6 +294,27 @@ pub fn mark_current(lines: &[String]) {
     }
 }
 
+/// Runs `f` from a destructor while the calling thread unwinds from a panic of its own (a scope
+/// guard that cleans up: `std::thread::panicking()` is true inside `f`). `f` must not let a panic
+/// escape (that would be a panic inside a destructor during unwinding: the process aborts).
+pub fn in_unwinding<R>(f: impl FnOnce() -> R) -> R {
+    struct OnDrop<'x, F: FnOnce() -> R, R>(Option<F>, &'x mut Option<R>);
+    impl<F: FnOnce() -> R, R> Drop for OnDrop<'_, F, R> {
+        fn drop(&mut self) {
+            let f = self.0.take().unwrap();
+            *self.1 = Some(f());
+        }
+    }
+    let mut out = None;
+    let _ = std::panic::catch_unwind(std::panic::AssertUnwindSafe(|| {
+        let _g = OnDrop(Some(f), &mut out);
+        std::panic::panic_any(Unwinding);
+    }));
+    out.expect("in_unwinding: the destructor ran")
+}
+/// the payload of the harness's own panic in `in_unwinding`
+pub struct Unwinding;
+
 /// `--key value` command-line options
 pub struct Args(pub Vec<String>);
 impl Args {
